@@ -46,6 +46,8 @@ CLAIMED = {
          'need_flush set adjacent to every dirtying event, cleared only where nothing can be RAM-dirty, refcount sweep in every flush pass; race with the last pass of an overlapping flush not decided', 'C18'),
  'C19': ('sibling cross-check of the three Qcow2IoOps implementations (data-dependence slices, dominance, loop/accumulation rule) + fault-model typestate for the punch fallback',
          'read count provenance, short-write handling, flush of buffered writers, offset pass-through, shared punch helper and flags, zero-write fallback, sync primitive reachability agree across the three backends; equality with the host-file model not decided', 'C19'),
+ 'C20': ('alignment abstract interpretation of the rqcow2 target, must-pass-through on the copy routines, data-dependence and sibling field-agreement rules on the leak check',
+         'block-multiple buffer lengths and aligned buffers at every read_at/write_at of the CLI, every chunk read is written, leak verdict reaches Err, scan bound uses the geometry fields of the refcount-table index, used-cluster set covers every mapping kind holding a host cluster; byte equality of convert, validity of formatted images and completeness of the scan not decided', 'C20'),
 }
 
 PENDING_REASON = 'rule engine for this property is not finished/validated yet (DESIGN.md section 7: not shipped as a proxy)'
